@@ -98,3 +98,37 @@ def default_exact(path: str) -> bool:
     stacking order of simultaneous observations changes (the property says 'up to rounding')."""
     tolerant = ("/estimates", "estimate_ephemeri", "filterstep", "filter_step", "reward", "metric", "tasks", "boresight")
     return not any(t in path for t in tolerant)
+
+
+def run_forked(build_fn, n_steps, choices=(), memo=False):
+    """``run`` in a forked child with job memoisation off: the run starts from the parent's process image (like a fresh
+    Ray cluster) and every job body really executes, in the order the schedule dictates, inside one process (like one
+    Ray worker).  Returns (step_states, error, trace).  Used to expose worker-side hidden state (module-level caches,
+    class-level queues) that makes a job's result depend on which jobs ran before it."""
+    import os  # noqa: PLC0415
+    import pickle  # noqa: PLC0415
+
+    rfd, wfd = os.pipe()
+    pid = os.fork()
+    if pid == 0:
+        code = 0
+        try:
+            os.close(rfd)
+            fakeray.MEMO_ENABLED = memo
+            if not memo:
+                fakeray.MEMO.clear()
+            rec = run(build_fn, n_steps, choices)
+            payload = (rec.step_states, rec.error, rec.trace)
+        except BaseException as exc:  # noqa: BLE001
+            payload = ([], f"child: {type(exc).__name__}: {exc}", [])
+            code = 3
+        try:
+            with os.fdopen(wfd, "wb") as fh:
+                pickle.dump(payload, fh, protocol=4)
+        finally:
+            os._exit(code)
+    os.close(wfd)
+    with os.fdopen(rfd, "rb") as fh:
+        data = fh.read()
+    os.waitpid(pid, 0)
+    return pickle.loads(data)
